@@ -17,7 +17,7 @@ struct app_row {
 };
 struct app_init { uint64_t lp, ticks, type, size; };
 struct app_prog {
-	uint64_t lps, ncls, target, seed, grid_exp;
+	uint64_t lps, ncls, target, seed, grid_exp, plmode;
 	uint64_t *targets; /* per LP */
 	uint64_t stop_lp, stop_cnt; int has_stop; /* RootsimStop() when LP stop_lp reaches stop_cnt events */
 	int ninits; struct app_init inits[APP_MAX_INITS];
